@@ -33,7 +33,7 @@ def BOUNDS(tier):
 
 
 def REQUIRED_COVER(tier):
-    return {'uint:256', 'int:257', 'var_int:topbit', 'snake:multi', 'addr:anycast', 'addr:ext', 'addr:route', 'addr:history', 'seq:depth2', 'dict', 'string:utf8', 'snake:long'}
+    return {'uint:256', 'int:257', 'var_int:topbit', 'snake:multi', 'addr:anycast', 'addr:ext', 'addr:route', 'addr:history', 'failing-peek', 'seq:depth2', 'dict', 'string:utf8', 'snake:long'}
 
 
 HASH32 = 'ed1691307050047117b998b561d8de82d31fbf84910ced6eb5fc92e7485ef8a7'
@@ -259,6 +259,67 @@ def shard_addr(rec):
     rec.sample(['addr_std', -1, HASH32, [30, (1 << 30) - 1]])
 
 
+def shard_failing_peeks(rec):
+    """sixth session (wave 9): a peek is non-consuming ALSO WHEN IT FAILS.  For slices whose next field is malformed, unsupported or cut short
+    for the peek in question: whatever the peek does (raise, return something), the slice is afterwards exactly what it was - same remaining
+    bits, same remaining references - and reading on gives the stored data."""
+    from pytoniq_core.boc import Builder
+    leaf = Builder().store_uint(5, 3).end_cell()
+    acc = format(int(HASH32, 16), '0256b')
+    fields = {
+        'addr_var tag': '11' + '0' * 40,
+        'addr_std cut short': '100' + '00000000' + acc[:100],
+        'addr_std with anycast cut short': '101' + '00011' + '1',
+        'addr_extern longer than the rest': '01' + format(400, '09b') + '1' * 20,
+        'tag only': '1',
+        'var_uint longer than the rest': '1111' + '1' * 30,
+        'coins longer than the rest': '1110' + '1' * 50,
+        'maybe-ref bit without a reference': '1' + '0' * 7,
+        'nothing left': '',
+    }
+    peeks = [('preload_address', lambda s: s.preload_address()), ('preload_var_uint(4)', lambda s: s.preload_var_uint(4)), ('preload_var_int(4)', lambda s: s.preload_var_int(4)),
+             ('preload_coins', lambda s: s.preload_coins()), ('preload_maybe_ref', lambda s: s.preload_maybe_ref()), ('preload_dict(8)', lambda s: s.preload_dict(8)),
+             ('preload_uint(64)', lambda s: s.preload_uint(64)), ('preload_int(64)', lambda s: s.preload_int(64)), ('preload_bits(64)', lambda s: s.preload_bits(64)),
+             ('preload_bytes(8)', lambda s: s.preload_bytes(8)), ('preload_bit', lambda s: s.preload_bit()), ('preload_ref', lambda s: s.preload_ref()),
+             ('preload_string(9)', lambda s: s.preload_string(9))]
+    for fname, bits in fields.items():
+        for nrefs in (0, 1):
+            for skip in (0, 3):
+                for pname, peek in peeks:
+                    rec.case('failing-peek')
+                    b = Builder().store_bits('101'[:skip]).store_bits(bits)
+                    for _ in range(nrefs):
+                        b.store_ref(leaf)
+                    s = b.end_cell().begin_parse()
+                    if skip:
+                        s.skip_bits(skip)
+                    before = (s.bits.to01(), s.remaining_refs, s.ref_offset)
+                    rec.trans()
+                    try:
+                        peek(s)
+                        out = 'returned'
+                    except Exception as e:
+                        out = exc_name(e)
+                    after = (s.bits.to01(), s.remaining_refs, s.ref_offset)
+                    rec.state(('failing-peek', fname, nrefs, skip, pname))
+                    rec.nontriv(('failing-peek', fname, nrefs, skip, pname))
+                    rec.trace()
+                    if after != before or before[0] != bits:
+                        rec.violation(f'peek-consumed:{pname.split("(")[0]}', f'{pname} on a slice holding "{fname}" ({len(bits)} bits, {nrefs} refs; it {out}): the slice went from '
+                                      f'{len(before[0])} bits / {before[1]} refs to {len(after[0])} bits / {after[1]} refs', 'shard_failing_peeks', {})
+                        rec.outcome('PEEK-CONSUMED')
+                        continue
+                    try:
+                        rest = s.load_bits(len(bits)).to01() if bits else ''
+                    except Exception as e:
+                        rest = f'raised {exc_name(e)}'
+                    if rest != bits:
+                        rec.violation(f'peek-consumed:{pname.split("(")[0]}', f'{pname} on a slice holding "{fname}" (it {out}): reading on gives other data than was stored', 'shard_failing_peeks', {})
+                        continue
+                    rec.outcome('peek-left-slice-alone')
+    rec.covered('failing-peek')
+
+
 # ------------------------------------------------------------------ sequences (S)
 ALPHABET = [
     ['bit', 1], ['bool', 0], ['uint', 0, 0], ['int', 0, 0], ['uint', 1, 1], ['uint', 200, 8], ['uint', (1 << 64) - 1, 64], ['uint', 1 << 255, 256],
@@ -323,6 +384,7 @@ def shards(tier, seed):
         for signed in (False, True):
             out.append({'fn': 'shard_var', 'args': {'lb': lb, 'signed': signed, 'small': small}, 'prio': 2})
     out.append({'fn': 'shard_coins', 'args': {}})
+    out.append({'fn': 'shard_failing_peeks', 'args': {}})
     out.append({'fn': 'shard_bits_bytes', 'args': {'part': 0}})
     out.append({'fn': 'shard_bits_bytes', 'args': {'part': 1}})
     for lo in range(0, 1024, 64):
